@@ -186,9 +186,19 @@ def extract_fn(repo, spec):
         raise vf.Undecided("cannot parse signature of %s" % spec["name"])
     tail = sig2[pend + 1:]
     m = re.match(r"\s*->\s*(.+?)\s*(where\b.*)?$", tail, re.S)
-    if m:
+    if m and spec.get("keep_sig"):
+        pass
+    elif m:
         rt = m.group(1).strip()
-        if rt == "Option<Self::Item>":
+        if spec.get("ret_type"):
+            # the impl's associated type spelled out (checked against the impl block)
+            blk = text[imp[1]:imp[2]]
+            inner = re.match(r"Option<(.*)>$", spec["ret_type"])
+            want = re.sub(r"\s+", "", "type Item = %s;" % (inner.group(1) if inner else spec["ret_type"]))
+            if rt != "Option<Self::Item>" or want not in re.sub(r"\s+", "", blk):
+                raise vf.Undecided("%s: the impl's Item type is no longer %s" % (spec["name"], spec["ret_type"]))
+            rt = spec["ret_type"]
+        elif rt == "Option<Self::Item>":
             blk = text[imp[1]:imp[2]]
             if not re.search(r"type\s+Item\s*=\s*\(K,\s*V\);", blk):
                 raise vf.Undecided("Self::Item is no longer (K, V) in %s" % spec["name"])
@@ -267,9 +277,10 @@ def extract_fn(repo, spec):
     if "".join(back) != body:
         raise vf.Undecided("%s: body identity check failed" % spec["name"])
     line_in_repo = text.count("\n", 0, start) + 1
-    return {"name": spec["name"], "header": inherent_header(header), "orig_header": re.sub(r"\s+", " ", header),
+    hdr = re.sub(r"\s+", " ", header) if spec.get("keep_trait") else inherent_header(header)
+    return {"name": spec["name"], "header": hdr, "impl_items": spec.get("impl_items", ""), "orig_header": re.sub(r"\s+", " ", header),
             "sig": sig2, "spec": spec.get("spec", ""), "body": body2, "orig_body": body,
-            "trusted": spec.get("trusted", False), "omit_body": spec.get("omit_body", False), "props": spec.get("props", []),
+            "trusted": spec.get("trusted", False), "keep_trait": spec.get("keep_trait", False), "omit_body": spec.get("omit_body", False), "props": spec.get("props", []),
             "file": spec["file"], "line": line_in_repo, "sha": vf.sha(body), "loops": len(loops), "closures": nclos,
             "hints": len(hints)}
 
@@ -315,6 +326,7 @@ def assemble(repo, demote=()):
     out.append(open(os.path.join(vf.VERIF, "verus", "prelude.rs")).read())
     out.append("} // mod spec")
     out.append("")
+    out.append("@@TRAITS@@")
     out.append("pub mod code {")
     out += imports + [local, "use super::spec::*;"]
     lemmas = re.findall(r"pub broadcast (?:proof|axiom) fn (\w+)", open(os.path.join(vf.VERIF, "verus", "prelude.rs")).read())
@@ -329,9 +341,16 @@ def assemble(repo, demote=()):
             lost.append({"function": s["name"], "why": str(e), "props": s.get("props", []), "trusted": s.get("trusted", False)})
             continue
         fns.append(f)
-    for f in fns:
-        first = sum(x.count("\n") + 1 for x in out) + 1
+    # trait impls that are kept as trait impls live in their own module (no `broadcast use` there: the proved
+    # lemmas may depend on these impls)
+    kept = [f for f in fns if f.get("keep_trait")]
+    ti = out.index("@@TRAITS@@")
+    tblk = ["pub mod traits {"] + imports + [local, "use super::spec::*;", ""] if kept else []
+    out[ti:ti + 1] = ["\n".join(tblk)] if kept else [""]
+    def emit(f, sink_first):
         blk = [f["header"] + " {"]
+        if f.get("impl_items"):
+            blk.append("    " + f["impl_items"])
         if f["name"] in demote:
             # this function's body did not get through the Verus front end on this run: keep its
             # contract (assumed) so that its callers are still checked, and report it as undecided
@@ -340,7 +359,7 @@ def assemble(repo, demote=()):
             blk.append("    #[verifier::external_body]")
         blk.append("    " + f["sig"])
         blk.append(f["spec"].strip("\n"))
-        f["body_line"] = first + sum(x.count("\n") + 1 for x in blk)
+        f["body_line"] = sink_first + sum(x.count("\n") + 1 for x in blk)
         if f["trusted"] and f.get("omit_body"):
             # assumed contract only: the body (not verified anyway) refers to items that are not extracted
             blk.append("    { unimplemented!() }")
@@ -348,7 +367,21 @@ def assemble(repo, demote=()):
             blk.append("    " + f["body"])
         blk.append("}")
         blk.append("")
-        txt = "\n".join(blk)
+        return "\n".join(blk)
+    if kept:
+        parts = [out[ti]]
+        for f in kept:
+            first = sum(x.count("\n") + 1 for x in out[:ti]) + sum(x.count("\n") + 1 for x in parts) + 1
+            txt = emit(f, first)
+            parts.append(txt)
+            linemap.append((first, first + txt.count("\n"), f))
+        parts.append("} // mod traits\n")
+        out[ti] = "\n".join(parts)
+    for f in fns:
+        if f.get("keep_trait"):
+            continue
+        first = sum(x.count("\n") + 1 for x in out) + 1
+        txt = emit(f, first)
         out.append(txt)
         last = first + txt.count("\n")
         linemap.append((first, last, f))
